@@ -16,6 +16,17 @@ def oracleShift (d : Rat) : Oracle :=
 
 def nearD : Rat := 1 / 10000000000
 
+/-- NOT a certified oracle either: every LP is solved inside the box `|v| ≤ 10⁹` over the variables it mentions.  Used only to
+    CLASSIFY a disagreement: a float solver cannot see a slope of 1e-11 (a coefficient that survives an exact cancellation such
+    as `1 - 0.999994·1.000006`), so it calls "bounded" what exact arithmetic calls unbounded far outside any sensible range.
+    If the implementation's result is reproduced with every LP boxed, the disagreement is that artefact. -/
+def bigBox : Rat := 1000000000
+def oracleBox : Oracle :=
+  ⟨fun obj cs =>
+    let vs := Gen.list_union (TL.vars cs) (varsL obj)
+    let box : TL := vs.flatMap fun v => [⟨[(v, 1)], bigBox⟩, ⟨[(v, -1)], bigBox⟩]
+    theOracle.lp obj (cs ++ box)⟩
+
 def jLPRes : LPRes → Json
   | .optimal m x => Json.mkObj [("status", "optimal"), ("m", jRat m), ("x", jLin x)]
   | .infeasible => Json.mkObj [("status", "infeasible")]
@@ -91,7 +102,9 @@ def handlePoly (op : String) (j : Json) : Option (Except String Json) :=
     let b := Poly.simplify theOracle (fun _ => false) l ctx
     let n1 := Poly.simplify (oracleShift (-nearD)) (fun _ => true) l ctx
     let n2 := Poly.simplify (oracleShift nearD) (fun _ => false) l ctx
-    pure (((jExcept a jTL).setObjVal! "alt" (jExcept b jTL)).setObjVal! "near" (Json.arr #[jExcept n1 jTL, jExcept n2 jTL]))
+    let n3 := Poly.simplify oracleBox (fun _ => true) l ctx
+    let n4 := Poly.simplify oracleBox (fun _ => false) l ctx
+    pure (((jExcept a jTL).setObjVal! "alt" (jExcept b jTL)).setObjVal! "near" (Json.arr #[jExcept n1 jTL, jExcept n2 jTL, jExcept n3 jTL, jExcept n4 jTL]))
   | "optimize" => run do
     let l ← getTL (← j.getObjVal? "terms")
     let obj ← getLin (← j.getObjVal? "obj")
